@@ -306,6 +306,19 @@ def check_pack(rng, nr, T):
     M = J | K
     if list(M.outputs) != outs + other_out or any(M[o] is not (J.nesteddict.get(o) if o in outs else K.nesteddict[o]) for o in M.outputs) or list(J.outputs) != outs:
         return dict(what='merge (|) is not the union of rows / mutated its operand', input=inp, signature=dict(op='merge'))
+    # history: the left operand keeps exactly its own rows, and a second merge of the same left operand with another collection that defines the same new output
+    # neither is refused nor changes the earlier result
+    if set(J.nesteddict) != set(outs) or other_out[0] in J.nesteddict:
+        return dict(what='merge (|) wrote the rows of the right operand into the left operand', input=inp, observed=sorted(J.nesteddict), expected=outs, signature=dict(op='merge-mutates'))
+    K2 = gen_real_jd(rng, nr, T, other_out, ins, p=1.0)
+    before = {i: np.array(M.nesteddict[other_out[0]][i], copy=True) if isinstance(M.nesteddict[other_out[0]][i], np.ndarray) else M.nesteddict[other_out[0]][i] for i in M.nesteddict[other_out[0]]}
+    try:
+        M2 = J | K2
+    except ValueError as ex:
+        return dict(what=f'a second merge of the same left operand was refused ({ex}): the first merge changed the operand', input=inp, signature=dict(op='merge-mutates'))
+    if any(M.nesteddict[other_out[0]][i] is not before[i] and not (isinstance(before[i], np.ndarray) and np.array_equal(M.nesteddict[other_out[0]][i], before[i])) for i in before) \
+            or set(M.nesteddict[other_out[0]]) != set(before) or any(M2[other_out[0]][i] is not K2.nesteddict[other_out[0]][i] for i in K2.nesteddict[other_out[0]]):
+        return dict(what='a later merge of the same left operand changed the result of an earlier merge', input=inp, signature=dict(op='merge-mutates'))
     for bad in (lambda: J | gen_real_jd(rng, nr, T, other_out, ins + ['zz'], p=1.0), lambda: J | gen_real_jd(rng, nr, T, outs[:1], ins, p=1.0)):
         try:
             bad()
